@@ -1,6 +1,7 @@
 """C07 — GPOS/kern: attached anchors coincide; adjustments equal the font's values.
-(also hosts the kern-driver part of C02: the reverse bracket, defect D3, and the depth part of C01: D13)"""
-import struct, re
+(also hosts the kern-driver part of C02: the reverse bracket (D3, fixed) and the depth part of C01 (D13, fixed);
+minimised past failures live in corpus/C07/*.json and run first in the search)"""
+import struct, re, os, glob, json
 import vlib
 
 MODULE = "RbModel.Props.C07"
@@ -207,7 +208,12 @@ def chains_mark_forest(r, ps):
 
 
 def chains_long(r, ps, typ):
-    """one maximal chain i -> i-1 -> ... (depth = n)"""
+    """one maximal chain: backward i -> i-1 -> ... or (cursive only) forward i -> i+1 -> ..., which is what
+    exhausts the nesting budget of 64 when the array is longer"""
+    if typ == 2 and r.chance(1, 2):
+        for i in range(len(ps) - 1):
+            ps[i][4] = 1; ps[i][5] = 2
+        return
     for i in range(1, len(ps)):
         ps[i][4] = -1; ps[i][5] = typ
 
@@ -244,7 +250,7 @@ def chains_wild(r, ps):
 
 
 def rand_attached(r, big=False, maxn=12):
-    n = r.range(1, maxn) if r.chance(9, 10) else r.range(30, 90)
+    n = r.range(1, maxn) if r.chance(9, 10) else r.range(30, 150)
     ps = rand_pos(r, n, big=big)
     k = r.below(10)
     kind = ("mark" if k < 3 else "cursive" if k < 5 else "mixed" if k < 7 else "wild" if k < 9 else "long")
@@ -264,8 +270,11 @@ def prop_lines(r, n):
         k = r.below(10)
         if k < 5:
             lines.append(f"gp finish {d} {ln} {0 if r.chance(1, 12) else 1} {fmt_pos(ps)}")
-        elif k < 9:
+        elif k < 8:
             lines.append(f"gp prop {d} {ln} {r.below(len(ps) + (1 if kind == 'wild' else 0))} {fmt_pos(ps)}")
+        elif k < 9:          # explicit nesting budget (0 = the link is dropped at once)
+            nl = r.choice([0, 1, 2, 3, r.below(12), 63, 64, 65])
+            lines.append(f"gp propn {d} {ln} {r.below(len(ps) + (1 if kind == 'wild' else 0))} {nl} {fmt_pos(ps)}")
         else:
             for p in ps:
                 if r.chance(1, 2): p[5] = r.below(4)
@@ -288,10 +297,17 @@ def classify_prop(ln, out):
     ks = [t[1], "dir:" + t[2] if t[1] != "start" else "start"]
     if out.startswith("panic"):
         ks.append(out)
-    elif t[1] in ("finish", "prop"):
-        ps = [parse_pos(x) for x in t[5:]]
+    elif t[1] in ("finish", "prop", "propn"):
+        ps = [parse_pos(x) for x in t[(6 if t[1] == "propn" else 5):]]
+        if t[1] == "propn":
+            ks.append("budget:" + ("0" if t[5] == "0" else "1-11" if int(t[5]) < 12 else "63+"))
         nzc = sum(1 for p in ps if p[4] != 0)
         ks.append("chains:0" if nzc == 0 else "chains:1-3" if nzc < 4 else "chains:4-15" if nzc < 16 else "chains:16+")
+        fwd = run = 0
+        for q in ps:
+            run = run + 1 if q[4] == 1 else 0
+            fwd = max(fwd, run)
+        if fwd > 64: ks.append("forward-chain>64(budget exhausted)")
         if any(abs(v) > (1 << 29) for p in ps for v in p[:4]):
             ks.append("near-i32-limits")
     return ks
@@ -414,9 +430,39 @@ def gen_pair(r):
     return sub_line(2, pair_subtable(pairs, f1, f2), props, d, i, infos, model, rand_pos(r, n))
 
 
+CHAIN_MAX = 32767
+
+
+def gen_far(r):
+    """the i16 guard of MarkArray::apply / CursivePos::apply: base (or previous unskipped glyph) CHAIN_MAX-1 ..
+    CHAIN_MAX+2 positions before the current glyph, only marks in between"""
+    dist = CHAIN_MAX + r.range(-1, 2)
+    pre = r.below(3)
+    n = pre + dist + 1
+    d = r.choice(DIRS)
+    idx = n - 1
+    b = pre
+    ps = [[0, 0, 0, 0, 0, 0] for _ in range(n)]
+    for k in r.sample(range(n), 6) + [b, idx]:
+        ps[k] = rand_pos(r, 1)[0]
+    applies = int(dist <= CHAIN_MAX)
+    if r.chance(1, 2):
+        infos = [(1, BASE, 0)] * pre + [(1, BASE, 0)] + [(2, MARK, 0)] * dist
+        ma, ba = ra(r), ra(r)
+        data = markbase_subtable({2: (0, ma)}, {1: [ba]}, 1)
+        model = f"mark {b} {ma[0]} {ma[1]} {ba[0]} {ba[1]} {applies}"
+        return sub_line(4, data, 0, d, idx, infos, model, ps)
+    props = IGNORE_MARKS | (RTL_FLAG if r.chance(1, 2) else 0)
+    infos = [(2, MARK, 0)] * pre + [(1, BASE, 0)] + [(2, MARK, 0)] * (dist - 1) + [(1, BASE, 0)]
+    en, ex = ra(r), ra(r)
+    data = cursive_subtable({1: (en, ex)})
+    model = f"cursive {b} {idx} {int(bool(props & RTL_FLAG))} {en[0]} {en[1]} {ex[0]} {ex[1]} {applies}"
+    return sub_line(3, data, props, d, idx, infos, model, ps)
+
+
 def sub_lines(r, n):
     gens = [gen_cursive, gen_cursive, gen_cursive, gen_mark, gen_mark, gen_single, gen_pair]
-    return [r.choice(gens)(r) for _ in range(n)]
+    return [r.choice(gens)(r) for _ in range(n)] + [gen_far(r) for _ in range(max(4, n // 20000))]
 
 
 def classify_sub(ln, out):
@@ -424,6 +470,8 @@ def classify_sub(ln, out):
     bar = t.index("|")
     m = t[8:bar]
     ks = [m[0], f"{m[0]}:dir:{t[5]}", f"{m[0]}:applied:{m[-1]}"]
+    if len(t) - bar > 30000:
+        ks.append(f"far(i16 guard):{m[0]}:applied:{m[-1]}")
     if m[0] == "cursive":
         ks.append("cursive:rtlflag:" + m[3])
         ps = [parse_pos(x) for x in t[bar + 1:]]
@@ -623,26 +671,6 @@ def mark_chain_search(ctx, shim, r, n):
                          "non-trivial = at least one attachment")
 
 
-def d3_hook_witness(ctx, shim, plans):
-    """the Lean counter-theorem's witness replayed on the crate: RTL, kerning not requested, one format-0
-    subtable, two glyphs -> the driver returns the buffer reversed."""
-    tbl = kern_table_ot([{"h": 1, "c": 0, "pairs": [(0x10002, -10)]}])
-    mask, req, _ = plans[("r", "0")]
-    ln = (f"kern drv {tbl.hex()} r 0 {mask} {req} 0:1:0:0:{0x10002}=-10 1:{mask or 1}:0:0,2:{mask or 1}:0:0 "
-          f"| 10:0:0:0:0:0 20:0:0:0:0:0")
-    o = vlib.run_lines(shim, [ln], nproc=1)[0]
-    ok = o.startswith("ok") and o.split()[2] == "1,2"
-    ctx.note_search("kern-bracket-witness", 1, 1, rule="the witness of known_C02_kern_bracket on the crate's hb_ot_layout_kern",
-                    order_kept=ok)
-    already = any("kern-bracket-shape" in open(v[1]).read() for v in ctx.violations) or \
-        any(k.get("signature", {}).get("theorem") == "known_C02_kern_bracket" for k in ctx.known_hits)
-    if not ok and not already:
-        ctx.violation("hb_ot_layout_kern leaves the buffer reversed when kerning is not requested (backward text)",
-                      {"stage": "search", "stream": "kern-bracket-witness", "theorem": "known_C02_kern_bracket",
-                       "request": ln, "expected": "glyph order 1,2", "observed": o})
-    return ok
-
-
 # ------------------------------------------------------------------------------------------------
 # end to end through shape() on generated fonts (tools/fontbuild.py)
 
@@ -734,8 +762,10 @@ def attach_text(r):
     k = r.below(12)
     if k == 0:       # a long run of marks on one base: mkmk chain far beyond 64
         return [r.choice(E_BASES)] + [r.choice(E_MARKS) for _ in range(r.range(60, 90))]
-    if k == 1:       # a long cursive run (forward chain of the attachment recursion)
-        return [r.choice(E_BASES) for _ in range(r.range(64, 130))]
+    if k == 1:       # a long cursive run: beyond the nesting budget (main axis and marks only are checked)
+        return [r.choice(E_BASES) for _ in range(r.range(66, 130))]
+    if k == 2:       # a cursive run inside the nesting budget of 64: chains of up to 60 links, both axes checked
+        return [r.choice(E_BASES) for _ in range(r.range(30, 60))]
     t = []
     for _ in range(r.range(1, 6)):
         t.append(r.choice(E_BASES))
@@ -755,11 +785,16 @@ def expected_attachments(sem, B):
     att, pairs = {}, {}
     for lk in sem:
         if lk["kind"] == "mark":
+            lastbase = [None] * n
+            lb = None
+            for i in range(n):
+                lastbase[i] = lb
+                if not is_mark[i]: lb = i
             for i in range(n):
                 if B[i] not in lk["marks"]:
                     continue
-                b = next((k for k in range(i - 1, -1, -1) if not is_mark[k]), None)
-                if b is None or B[b] not in lk["bases"]:
+                b = lastbase[i]
+                if b is None or B[b] not in lk["bases"] or i - b > CHAIN_MAX:
                     continue
                 cls, ma = lk["marks"][B[i]]
                 ba = lk["bases"][B[b]][cls]
@@ -775,19 +810,29 @@ def expected_attachments(sem, B):
                     att[i] = (i - 1, ma, ba)
         else:
             skip = lambda k: bool(lk["flag"] & IGNORE_MARKS) and is_mark[k]
+            prevok = [None] * n
+            lp = None
+            for j in range(n):
+                prevok[j] = lp
+                if not skip(j): lp = j
             for j in range(1, n):
                 if skip(j) or B[j] not in lk["ee"] or lk["ee"][B[j]][0] is None:
                     continue
-                i = next((k for k in range(j - 1, -1, -1) if not skip(k)), None)
-                if i is None or B[i] not in lk["ee"] or lk["ee"][B[i]][1] is None:
+                i = prevok[j]
+                if i is None or j - i > CHAIN_MAX or B[i] not in lk["ee"] or lk["ee"][B[i]][1] is None:
                     continue
                 pairs[j] = (i, lk["ee"][B[j]][0], lk["ee"][B[i]][1])
     return att, pairs
 
 
-def check_attach(sem, text, d, so, stats=None):
+NEST = 64
+
+
+def check_attach(sem, text, d, so, stats=None, unattached_zero=False):
     """the geometric oracle on one shape() reply; returns a description of the first anchor pair that does not
-    coincide (None when all do)"""
+    coincide (None when all do).  The cross axis of cursive pairs is resolved by the attachment recursion, which
+    carries a nesting budget of 64: it is checked only when the text has fewer joined pairs than that (the main
+    axis and the marks do not depend on the recursion depth)."""
     out = parse_shape(so)
     if out is None or len(out) != len(text):
         return f"shape() failed or changed the glyph count on an attachment font: {so[:80]}"
@@ -810,12 +855,18 @@ def check_attach(sem, text, d, so, stats=None):
             return (f"attached anchors do not coincide: mark at buffer index {i} (glyph {B[i]}): origin+mark anchor = "
                     f"{(pi[0] + ma[0], pi[1] + ma[1])} but target {t} (glyph {B[t]}) origin+anchor = "
                     f"{(pt[0] + ba[0], pt[1] + ba[1])}, dir {d}")
+    axes = (0, 1) if len(pairs) < NEST else ((0,) if gd in "lr" else (1,))
+    if stats is not None and len(pairs) >= NEST: stats["main_axis_only"] += 1
     for j, (i, en, ex) in pairs.items():
         pi, pj = pen[cl_of(i)], pen[cl_of(j)]
-        if (pj[0] + en[0], pj[1] + en[1]) != (pi[0] + ex[0], pi[1] + ex[1]):
+        if any(pj[a] + en[a] != pi[a] + ex[a] for a in axes):
             return (f"attached anchors do not coincide: cursive pair ({i},{j}) glyphs ({B[i]},{B[j]}): entry point "
                     f"{(pj[0] + en[0], pj[1] + en[1])} != exit point {(pi[0] + ex[0], pi[1] + ex[1])}, dir {d} "
-                    f"({'horizontal' if gd in 'lr' else 'vertical'})")
+                    f"({'horizontal' if gd in 'lr' else 'vertical'}, axes checked {axes})")
+    if unattached_zero:
+        for k in range(n):
+            if B[k] in E_MARKS and k not in att and pen[cl_of(k)][2][3:5] != (0, 0):
+                return f"unattached mark at buffer index {k} has offsets {pen[cl_of(k)][2][3:5]} instead of (0, 0)"
     return None
 
 
@@ -834,7 +885,7 @@ def attach_search(ctx, shim, r, nfonts, ntexts):
         groups.append(lines); meta.append((rec, sem, ms))
     outs = vlib.run_groups(shim, groups, timeout=900)
     stats = {"shapes": 0, "marks_checked": 0, "pairs_checked": 0, "long_mark_chains": 0, "long_cursive_runs": 0,
-             "per_dir": {d: 0 for d in DIRS}}
+             "main_axis_only": 0, "per_dir": {d: 0 for d in DIRS}}
     bad = 0
     for (rec, sem, ms), o, g in zip(meta, outs, groups):
         if o[0] != "ok":
@@ -852,7 +903,8 @@ def attach_search(ctx, shim, r, nfonts, ntexts):
                     rule="generated fonts (GDEF classes, mark-to-base, mark-to-mark, 1-2 cursive lookups with random "
                          "RightToLeft / IgnoreMarks flags, random anchors, optional vmtx/VORG) x random texts x 4 directions "
                          "through shape(); oracle: in the pen model of the output every attached mark's anchor equals its "
-                         "target's anchor and every joined pair's entry point equals the exit point (both axes); "
+                         "target's anchor and every joined pair's entry point equals the exit point (both axes when the text "
+                         "has < 64 joined pairs = within the nesting budget, main axis otherwise); "
                          "non-trivial = number of anchor pairs checked")
 
 
@@ -976,7 +1028,7 @@ def value_search(ctx, shim, r, nfonts, ntexts, plans):
         lines += [f"fontdrop V{f}", f"fontdrop P{f}"]
         groups.append(lines); meta.append((rec, sem, ms))
     outs = vlib.run_groups(shim, groups, timeout=900)
-    stats = {"shapes": 0, "with_nonzero_delta": 0, "kern_off": 0, "order_swapped_D3": 0, "per_dir": {d: 0 for d in DIRS}}
+    stats = {"shapes": 0, "with_nonzero_delta": 0, "kern_off": 0, "per_dir": {d: 0 for d in DIRS}}
     nbad = 0
     for (rec, sem, ms), o, g in zip(meta, outs, groups):
         if o[0] != "ok" or o[1] != "ok":
@@ -989,9 +1041,6 @@ def value_search(ctx, shim, r, nfonts, ntexts, plans):
             res = check_value(sem, text, d, kf, sv, sp, stats)
             if res is None:
                 continue
-            if res[0] == "order" and d == "r" and kf == "0":
-                stats["order_swapped_D3"] += 1       # defect D3: counted here, reported once by d3_shape_witness
-                continue
             nbad += 1
             if nbad <= 2:
                 ctx.violation(res[1], {"stage": "search", "stream": "value-shape", "font_line": g[0], "plain_font_line": g[1],
@@ -1002,24 +1051,6 @@ def value_search(ctx, shim, r, nfonts, ntexts, plans):
                          "texts x 4 directions x kern feature on/off/default, shaped with the font and with the same font "
                          "stripped of GPOS/kern; the per-glyph difference must equal the records' values (kern split "
                          "kern>>1 / rest, pairs in visual order); non-trivial = some expected delta is non-zero")
-
-
-def d3_shape_witness(ctx, shim):
-    """D3 through the public API: kern-only font, RTL text, feature kern=0."""
-    rec = {"num_glyphs": 4, "cmap": "pua", "advances": [0, 500, 600, 700], "kern": [{"pairs": [(1, 2, -50)]}]}
-    plain = {k: v for k, v in rec.items() if k != "kern"}
-    feats = f"{TAG('kern')}:0:0:4294967295"
-    lines = [f"font K {fontbuild.hexfont(rec)}", f"font Q {fontbuild.hexfont(plain)}",
-             shape_line("K", "r", [1, 2, 3], feats), shape_line("Q", "r", [1, 2, 3], feats)]
-    o = vlib.run_groups(shim, [lines], nproc=1)[0]
-    a, b = parse_shape(o[2]), parse_shape(o[3])
-    ctx.note_search("kern-bracket-shape-witness", 1, 1, rule="kern-only font vs the same font without kern, RTL, kern=0")
-    if a is None or b is None or [x[:2] for x in a] != [x[:2] for x in b]:
-        ctx.violation("shape(): RTL text, feature kern=0, font with a kern table: glyphs come out in logical order "
-                      f"({[x[0] for x in a] if a else o[2]}) instead of visual order ({[x[0] for x in b] if b else o[3]})",
-                      {"stage": "search", "stream": "kern-bracket-shape", "theorem": "known_C02_kern_bracket",
-                       "font_line": lines[0], "plain_font_line": lines[1], "request": lines[2],
-                       "observed": o[2], "plain": o[3]})
 
 
 def btt_hook_witness(ctx, shim):
@@ -1042,88 +1073,115 @@ def btt_hook_witness(ctx, shim):
                            "request": ln, "observed": o})
 
 
-def i16_witness(ctx, shim):
-    """D13, second half, through shape(): `attach_chain` is an i16.  A mark 32 769+ glyphs after its base gets a
-    wrapped (positive) link: out of range -> the mark silently keeps the raw anchor difference (not on its base);
-    in range (buffer > 65 536 glyphs) -> `assert!(j < i)` panics."""
-    rec = {"num_glyphs": 4, "cmap": "pua", "advances": [0, 600, 0, 0], "gdef": {"classes": {1: 1, 2: 3}},
-           "gpos": {"features": [{"tag": "mark", "lookups": [0]}], "lookups": [{"type": 4, "flag": 0, "subtables": [{
-               "mark_coverage": [2], "base_coverage": [1], "class_count": 1, "marks": [(0, (10, 20))],
-               "bases": [[(100, 200)]]}]}]}}
-    font = f"font I {fontbuild.hexfont(rec)}"
-    reqs = [shape_line("I", "l", [1] + [2] * n) for n in (32768, 32769, 70000)]
-    o = vlib.run_groups(shim, [[font] + reqs], nproc=1, timeout=300)[0]
-    ctx.note_search("attach-chain-i16-witness", 3, 3, rule="one base followed by 32768 / 32769 / 70000 marks of a mark-to-base font")
-    ok_out = parse_shape(o[1])
-    if ok_out is None or any((x[4], x[5]) != (-510, 180) for x in ok_out[1:]):
-        ctx.violation("base + 32768 marks: some mark is not on its base", {"stage": "search", "stream": "attach-chain-i16",
-                      "font_line": font, "text": "glyph 1 followed by 32768 x glyph 2", "observed": o[1][:300]})
-    bad = []
-    out = parse_shape(o[2])
-    if out is None:
-        bad.append(f"base + 32769 marks: {o[2][:120]}")
-    else:
-        off = [k for k, x in enumerate(out) if k > 0 and (x[4], x[5]) != (-510, 180)]
-        if off:
-            bad.append(f"base + 32769 marks: mark at index {off[0]} has offset {out[off[0]][4:6]} instead of (-510, 180)")
-    if not o[3].startswith("ok"):
-        bad.append(f"base + 70000 marks: {o[3][:120]}")
-    if bad:
-        ctx.violation("attach_chain is an i16: " + "; ".join(bad),
-                      {"stage": "search", "stream": "attach-chain-i16", "theorem": "known_C01_attach_chain_wraps",
-                       "font_line": font, "recipe": rec, "text": "glyph 1 followed by n x glyph 2, n = 32769 and n = 70000",
-                       "direction": "l", "observed_32769_tail": o[2][-120:], "observed_70000": o[3][:200]})
-
-
-def depth_witness(ctx, shim):
-    """D13, first half, through shape(): the attachment recursion has no nesting limit.  A 4-glyph font with one
-    RightToLeft-flagged cursive lookup and 300 000 glyphs of text: the forward chain i -> i+1 -> ... makes
-    propagate_attachment_offsets nest 300 000 deep -> stack overflow, the process aborts.
-    (known_C01_propagate_unbounded is the model-level statement.)"""
+def reverse_depth_witness(ctx, shim):
+    """`reverse_cursive_minor_offset` has no nesting budget (neither has HarfBuzz's).  A 4-glyph font with two
+    cursive lookups — the first flagged RightToLeft, the second not — and 300 000 glyphs of text: the first lookup
+    builds the forward chain 0 -> 1 -> 2 ..., the second re-attaches glyph 1 to glyph 0 and reverses the rest of
+    the chain recursively: stack overflow, the process aborts.  (known_C01_reverse_cursive_unbounded is the
+    model-level statement.)"""
     rec = {"num_glyphs": 4, "cmap": "pua", "advances": [0, 600, 0, 0], "gdef": {"classes": {1: 1}},
-           "gpos": {"features": [{"tag": "mark", "lookups": [0]}], "lookups": [{"type": 3, "flag": RTL_FLAG, "subtables": [
-               {"coverage": [1], "entry_exit": [((0, 10), (500, 20))]}]}]}}
-    font = f"font D {fontbuild.hexfont(rec)}"
-    o = vlib.run_groups(shim, [[font, shape_line("D", "l", [1] * 300000)]], nproc=1, timeout=300)[0]
-    ctx.note_search("propagate-depth-witness", 1, 1, rule="300000 x the same glyph, font with one RightToLeft cursive lookup")
+           "gpos": {"features": [{"tag": "mark", "lookups": [0, 1]}], "lookups": [
+               {"type": 3, "flag": RTL_FLAG, "subtables": [{"coverage": [1], "entry_exit": [((0, 10), (500, 20))]}]},
+               {"type": 3, "flag": 0, "subtables": [{"coverage": [1], "entry_exit": [((0, 15), (500, 25))]}]}]}}
+    font = f"font R {fontbuild.hexfont(rec)}"
+    o = vlib.run_groups(shim, [[font, shape_line("R", "l", [1] * 300000)]], nproc=1, timeout=300)[0]
+    ctx.note_search("reverse-cursive-depth-witness", 1, 1,
+                    rule="300000 x the same glyph, font with a RightToLeft cursive lookup followed by a plain one")
     if not o[1].startswith("ok"):
-        ctx.violation(f"shape() of 300000 cursively joined glyphs does not return: {o[1][:100]} (stack overflow in "
-                      "propagate_attachment_offsets: no nesting limit)",
-                      {"stage": "search", "stream": "propagate-depth", "theorem": "known_C01_propagate_unbounded",
+        ctx.violation(f"shape() of 300000 glyphs joined by two cursive lookups (RightToLeft, then plain) does not return: "
+                      f"{o[1][:100]} (stack overflow in reverse_cursive_minor_offset: no nesting limit)",
+                      {"stage": "search", "stream": "reverse-cursive-depth", "theorem": "known_C01_reverse_cursive_unbounded",
                        "font_line": font, "recipe": rec, "text": "300000 x glyph 1 (U+E000)", "direction": "l",
                        "observed": o[1][:200]})
 
 
-def report_disagreements(ctx):
-    """a correspondence disagreement comes with a concrete failing request: report it as such, at once"""
-    for b in ctx.broken:
-        if b.get("stage") == "correspond" and not b.get("reported"):
-            b["reported"] = True
-            d = b["smallest"][0]
-            ctx.violation(f"model and crate disagree on stream {b['stream']} ({b['count']} cases): impl `{d['impl'][:120]}` "
-                          f"model `{d['model'][:120]}`",
-                          {"stage": "correspond", "stream": b["stream"], "request": d["request"], "impl": d["impl"],
-                           "model": d["model"], "count": b["count"]})
+def d3_hook_seed(ctx, shim, plans):
+    """the former witness of defect D3 on hb_ot_layout_kern itself: RTL, kerning not requested, one format-0
+    subtable, two glyphs — the driver must hand the buffer back in the order it got it."""
+    tbl = kern_table_ot([{"h": 1, "c": 0, "pairs": [(0x10002, -10)]}])
+    mask, req, _ = plans[("r", "0")]
+    ln = (f"kern drv {tbl.hex()} r 0 {mask} {req} 0:1:0:0:{0x10002}=-10 1:{mask or 1}:0:0,2:{mask or 1}:0:0 "
+          f"| 10:0:0:0:0:0 20:0:0:0:0:0")
+    o = vlib.run_lines(shim, [ln], nproc=1)[0]
+    ok = o.startswith("ok") and o.split()[2] == "1,2"
+    ctx.note_search("corpus:kern-bracket-hook", 1, 1, rule="former D3 witness on the crate's hb_ot_layout_kern (must keep the order)")
+    if not ok:
+        ctx.violation("hb_ot_layout_kern leaves the buffer reversed when kerning is not requested (backward text)",
+                      {"stage": "search", "stream": "kern-bracket-witness", "request": ln,
+                       "expected": "glyph order 1,2", "observed": o})
 
 
-def report_broken_proof(ctx):
-    """vlib.finish() mentions a broken proof only when no violation with a concrete input exists; the known
-    findings of this property (D3, BTT cursive) always exist, so say it here."""
-    if not any(v[2] for v in ctx.violations):
-        return
-    for b in ctx.broken:
-        if b.get("stage") != "correspond":
-            ctx.violation(f"proof no longer checks: {b.get('module')} {b.get('failed_at', '')}",
-                          {"stage": b.get("stage"), "module": b.get("module"), "failed_at": b.get("failed_at"),
-                           "log_tail": b.get("log_tail", "")[-1500:], "forbidden": b.get("forbidden"),
-                           "axioms": b.get("axioms")}, found_input=False)
+def seed_text(t):
+    """{"glyphs":[..]} | {"repeat":[[gid,count],...]} -> glyph list"""
+    if "glyphs" in t:
+        return list(t["glyphs"])
+    out = []
+    for g, c in t["repeat"]:
+        out += [g] * c
+    return out
+
+
+def run_seed(shim, sd):
+    """one corpus/C07 seed -> list of (description-of-failure | None, request, reply)"""
+    res = []
+    if "fontfile" in sd:
+        path = os.path.join(vlib.REPO, sd["fontfile"])
+        cps = []
+        for cp, c in sd["codepoints_repeat"]:
+            cps += [cp] * c
+        t = ",".join(f"{cp:x}:{i}" for i, cp in enumerate(cps))
+        req = f"shape S {sd.get('dir', '-')} - - 0 0 - - - {t}"
+        o = vlib.run_groups(shim, [[f"fontfile S {path}", req]], nproc=1, timeout=600)[0]
+        bad = None if (o[0] == "ok" and o[1].startswith("ok")) else f"does not return normally: {o[0]} / {o[1][:160]}"
+        return [(bad, req[:200], o[1][:200])]
+    sem = intkeys(sd.get("sem"))
+    font = f"font S {fontbuild.hexfont(sd['recipe'])}"
+    lines = [font]
+    if sd["oracle"] == "value":
+        plain = {k: v for k, v in sd["recipe"].items() if k not in ("gpos", "kern")}
+        lines.append(f"font T {fontbuild.hexfont(plain)}")
+    kf = sd.get("kern_feature", "-")
+    feats = "-" if kf == "-" else f"{TAG('kern')}:{kf}:0:4294967295"
+    texts = [seed_text(t) for t in sd["texts"]]
+    for t in texts:
+        lines.append(shape_line("S", sd["dir"], t, feats))
+        if sd["oracle"] == "value":
+            lines.append(shape_line("T", sd["dir"], t, feats))
+    o = vlib.run_groups(shim, [lines], nproc=1, timeout=600)[0]
+    k = 2 if sd["oracle"] == "value" else 1
+    for t in texts:
+        if sd["oracle"] == "value":
+            r = check_value(sem, t, sd["dir"], kf, o[k], o[k + 1])
+            res.append((r[1] if r else None, lines[k][:200], o[k][:200])); k += 2
+        else:
+            why = None if o[k].startswith("ok") else f"does not return normally: {o[k][:160]}"
+            if why is None and sd["oracle"] == "attach":
+                why = check_attach(sem, t, sd["dir"], o[k], unattached_zero=sd.get("unattached_zero", False))
+            res.append((why, lines[k][:200], o[k][:200])); k += 1
+    return res
+
+
+def corpus_seeds(ctx, shim):
+    """minimised past failures (corpus/C07/*.json): the former witnesses of D3, D13a, D13b.  They run first and
+    must pass on the current tree."""
+    n = 0
+    for f in sorted(glob.glob(os.path.join(vlib.ROOT, "corpus", "C07", "*.json"))):
+        sd = json.load(open(f))
+        name = os.path.basename(f)[:-5]
+        for why, req, reply in run_seed(shim, sd):
+            n += 1
+            if why:
+                ctx.violation(f"corpus seed {name} ({sd['what'][:90]}): {why}",
+                              {"stage": "search", "stream": "corpus:" + name, "seed_file": f, "request": req,
+                               "observed": reply})
+    ctx.note_search("corpus-seeds", n, n, rule="corpus/C07/*.json: former defect witnesses through shape(), each with its oracle")
 
 
 def run(ctx):
     ctx.assumptions += [
         "positions are modelled over unbounded Int; every i32 operation in the modelled code is +, -, negation or "
         "assignment, so the release build holds wrap32 of the model value (the driver prints wrap32; streams include "
-        "values next to the i32 limits); attach_chain is wrapped to i16 where Rust casts",
+        "values next to the i32 limits); attach_chain is cast to i16 where Rust casts (exact since the i16 guard)",
         "device / variation deltas, kern state machines (format 1) and kerx are outside the model; the GPOS matcher "
         "(which glyph pair a lookup selects) is the C06 interpreter — here the selected indices are inputs",
     ]
@@ -1146,17 +1204,14 @@ def run(ctx):
     ctx.correspond("kern-fmt0", lines=f0_lines(ctx.rng("f0"), ctx.budget(2000, 100000)), canon=canon)
     ctx.correspond("kern-driver", lines=drv_lines(ctx.rng("drv"), ctx.budget(3000, 300000), plans),
                    classify=classify_drv, canon=canon)
-    report_disagreements(ctx)
+    corpus_seeds(ctx, shim)
+    d3_hook_seed(ctx, shim, plans)
     mark_chain_search(ctx, shim, ctx.rng("markchain"), ctx.budget(3000, 200000))
     attach_search(ctx, shim, ctx.rng("attach"), ctx.budget(150, 10000), ctx.budget(8, 12))
     value_search(ctx, shim, ctx.rng("value"), ctx.budget(150, 10000), ctx.budget(8, 12), plans)
-    # genuine findings last, so that they never use up the violation budget of the streams above
-    d3_shape_witness(ctx, shim)
-    d3_hook_witness(ctx, shim, plans)
+    # the remaining known findings last, so that it never uses up the violation budget of the streams above
     btt_hook_witness(ctx, shim)
-    i16_witness(ctx, shim)
-    depth_witness(ctx, shim)
-    report_broken_proof(ctx)
+    reverse_depth_witness(ctx, shim)
 
 
 def intkeys(x):
@@ -1181,16 +1236,20 @@ def replay(ctx, rp):
         res = check_value(intkeys(rp["sem"]), rp["text"], rp["dir"], rp["kern_feature"], o[2], o[3])
         print("font :", o[2]); print("plain:", o[3]); print("oracle:", res[1] if res else "deltas equal the records")
         return 1 if res else 0
-    if stream == "kern-bracket-shape":
-        o = vlib.run_groups(shim, [[rp["font_line"], rp["plain_font_line"], rp["request"],
-                                    rp["request"].replace("shape K ", "shape Q ")]], nproc=1)[0]
-        a, b = parse_shape(o[2]), parse_shape(o[3])
-        print("kern font :", o[2]); print("plain font:", o[3])
-        return 0 if a and b and [x[:2] for x in a] == [x[:2] for x in b] else 1
+    if stream and stream.startswith("corpus:"):
+        bad = [w for w, _, _ in run_seed(shim, json.load(open(rp["seed_file"]))) if w]
+        for w in bad: print(w)
+        return 1 if bad else 0
     if stream == "kern-bracket-witness":
         o = vlib.run_lines(shim, [rp["request"]], nproc=1)[0]
         print("impl:", o)
         return 0 if o.startswith("ok") and o.split()[2] == "1,2" else 1
+    if stream == "reverse-cursive-depth":
+        before = len(ctx.violations)
+        reverse_depth_witness(ctx, shim)
+        for v in ctx.violations[before:]:
+            print(v[0])
+        return 1 if len(ctx.violations) > before else 0
     if stream == "cursive-btt":
         o = vlib.run_lines(shim, [rp["request"]], nproc=1)[0]
         t = o.split()
@@ -1199,18 +1258,6 @@ def replay(ctx, rp):
             return 1
         org = origins([parse_pos(x) for x in t[4:]], True)
         return 0 if org[1][1] + 30 == org[0][1] + 40 else 1
-    if stream == "attach-chain-i16":
-        before = len(ctx.violations)
-        i16_witness(ctx, shim)
-        for v in ctx.violations[before:]:
-            print(v[0])
-        return 1 if len(ctx.violations) > before else 0
-    if stream == "propagate-depth":
-        before = len(ctx.violations)
-        depth_witness(ctx, shim)
-        for v in ctx.violations[before:]:
-            print(v[0])
-        return 1 if len(ctx.violations) > before else 0
     if stream == "mark-coincide":
         o = vlib.run_lines(shim, [rp["request"]], nproc=1)[0]
         print("impl:", o, "(was:", rp.get("observed"), ")")
